@@ -673,7 +673,9 @@ def replay_text(ctx, seeds):
     if spec_nets != set(network_codes()):
         raise MachineryError("ExtKeyText.Versions lists %s, pycoin registers %s: regenerate the table deliberately" % (
             sorted(spec_nets - set(network_codes())), sorted(set(network_codes()) - spec_nets)))
-    _G["trees"] = {s: eval_paths(_G["path_recs"], s) for s in seeds}
+    shapes = [_tp(x["path"]) for x in recs]
+    need = [x for x in _G["path_recs"] if x["k"] == "root" or any(_tp(x["path"]) == sh[:len(x["path"])] for sh in shapes)]
+    _G["trees"] = {s: eval_paths(need, s) for s in seeds}
     tot = 0
     chunks = split(recs, NPROC)
     for fails, n in pmap(_text_worker, [(c, seeds) for c in chunks], chunk=1):
@@ -1112,13 +1114,13 @@ def run(ctx):
         for cfg in (["MC_BIP32Session_rpq"] if q else ["MC_BIP32Session_rpq", "MC_BIP32Session_rpt1", "MC_BIP32Session_rpt2"]):
             first_session = replay_sessions(ctx, cfg, seeds[1:2] if q else seeds[1:3]) or first_session
     if _only(ctx, "ranges"):
-        _G["tree_for_ranges"] = eval_paths(_G["path_recs"], seeds[0])
+        _G["tree_for_ranges"] = eval_paths([x for x in _G["path_recs"] if x["k"] == "root" or len(x["path"]) <= 2], seeds[0])
         replay_ranges(ctx, "MC_Subpaths_rpq" if q else "MC_Subpaths_t", seeds[0], not q)
     if _only(ctx, "text"):
-        replay_text(ctx, seeds[:2] if q else seeds[:5])
+        replay_text(ctx, seeds[:2] if q else seeds[:4])
     if _only(ctx, "electrum"):
         rnd = random.Random(ctx.seed * 104729 + 9)
-        est = ["%032x" % rnd.getrandbits(128) for _ in range(2 if q else 6)]
+        est = ["%032x" % rnd.getrandbits(128) for _ in range(2 if q else 4)]
         replay_electrum(ctx, "MC_Electrum_q" if q else "MC_Electrum_t", est)
     # 4. code -> spec
     if _only(ctx, "traces"):
